@@ -289,6 +289,8 @@ class Gen:
     def config(self):
         rng = self.rng
         pool = [self.P("p1"), self.P("p2"), self.P("p3"), self.P("nodir"), self.P("p1") + b"/", self.P("m")]
+        # directories that really hold a file are named more often, so that bare names resolve through every rule
+        pool += [self.P(f.loc) for f in self.w.files.values() if f.loc in ("p1", "p2", "p3", "m/sub")] * 3
         def plist(maxn):
             comps = [rng.choice(pool) for _ in range(rng.randint(0, maxn))]
             s = b":".join(comps)
@@ -482,14 +484,21 @@ class Gen:
             nm = rand_name(rng, {f.nodes[k]["name"] for k in f.kids(p)}, simple=True)
             if self.be == "hdf5" and self.moved:
                 return
+            probes = []
+            for lf, lu in self.all_links():
+                _, _, t = ideal_rd(w, lf.fid, lu, b"")
+                if t is not None and t[0] == f.path and (t[1] == u or f.nodes[t[1]]["parent"] == u):
+                    probes.append((lf, lu))
+            probes = probes[:2]
+            for lf, lu in probes:                             # fill the cache, rename, ask again
+                self.op_read(lf, lu)
             self.emit("rename %d %d %d %s" % (f.fid, p, u, hx(nm)), "ok")
             f.nodes[u]["name"] = nm
             if self.be == "hdf5":
                 f.order.remove(u); f.order.append(u)
             self.renamed = True
-            if rng.random() < 0.4:
-                # ... and sometimes give the old name to a new node (full resolution now finds THAT one)
-                pass
+            for lf, lu in probes[-1:]:
+                self.op_read(lf, lu)
         elif r < 0.54 and tg:
             f, u = rng.choice(tg)
             if self.be == "hdf5" and self.renamed:
@@ -904,7 +913,13 @@ def scenario(name, rng, be, root):
         g.emit("setenv CGNS_LINK_PATH %s" % hx(g.P("p2")), "ok"); g.w.env["CGNS_LINK_PATH"] = g.P("p2")
         for v in (g.P("nodir") + b":" + g.P("p3"), g.P("m/sub")):
             g.emit("pathadd %s" % hx(v), "ok"); g.w.plist.append(v)
-        g.x_open(A, "w"); L = g.x_link(A, 0, b"L", b"t.cgns", b"/X"); g.x_close(A)
+        # a second name: a file of the OTHER back end in the parent's directory and a non-CGNS file in the current
+        # directory are passed over; the right one sits on the path list
+        g.emit("file 9 %s %s w" % (hx(g.P("m/u.cgns")), other), "ok"); g.emit("closef 9", "ok"); g.w.decoys[g.P("m/u.cgns")] = other
+        g.emit("junk %s" % hx(b"u.cgns"), "ok"); g.w.decoys[b"u.cgns"] = "junk"
+        U = g.add_file("p3", b"u.cgns"); g.x_open(U, "w"); g.x_create(U, 0, b"X", b"the right type"); g.x_close(U)
+        g.x_open(A, "w"); L = g.x_link(A, 0, b"L", b"t.cgns", b"/X"); LU = g.x_link(A, 0, b"LU", b"u.cgns", b"/X"); g.x_close(A)
+        g.x_open(A, "r"); g.x_read(A, LU, hint={"hdf5": K_H5PATH}); g.x_close(A)
         for f in tf + [None]:
             g.x_open(A, "r"); g.x_read(A, L, hint={"hdf5": K_H5PATH}); g.x_close(A)
             if f is not None:
@@ -1098,3 +1113,339 @@ def run_mll(exe, case):
     if outcome != "ok" and not fails:
         fails.append((len(il), dict(outcome=outcome, stack=stack), None))
     return fails, il, outcome
+
+
+# ============================================================================ expectations from a script alone
+def expect_from_script(be, lines, impl_lines):
+    """Rebuild the mirror by interpreting `lines` (a mutation is applied when the library accepted it) and compute the
+    oracle's expectation for every read: used to shrink a failing history and to replay one -- no generator state, no
+    Coq model."""
+    w = World(be)
+    expect, meta = [], []
+    renamed = False
+    foreign = set()
+    def ok(i):
+        return i < len(impl_lines) and impl_lines[i] == "ok"
+    def B(h):
+        return b"" if h == "-" else bytes.fromhex(h)
+    for i, l in enumerate(lines):
+        t = l.split(" ")
+        e, m = None, None
+        try:
+            op = t[0]
+            if op == "setenv":
+                w.env[t[1]] = B(t[2]) if t[1] in w.env else w.env.get(t[1], b""); e = "ok"
+            elif op == "pathadd":
+                w.plist.append(B(t[1])); e = "ok"
+            elif op == "pathdel":
+                w.plist = []; e = "ok"
+            elif op == "junk":
+                w.decoys[B(t[1])] = "junk"; e = "ok"
+            elif op == "unlinkf":
+                f = w.by_path(B(t[1]))
+                if f is not None:
+                    f.exists = False
+                w.decoys.pop(B(t[1]), None); e = "ok"
+            elif op == "file":
+                k, lit, fbe, md = int(t[1]), B(t[2]), t[3], t[4]
+                if fbe != be:
+                    if md == "w":
+                        w.decoys[lit] = fbe
+                    foreign.add(k); e = "ok"
+                else:
+                    f = w.files.get(k)
+                    if f is None or f.path != lit:
+                        f = FileM(k, lit, be); w.files[k] = f
+                    if ok(i):
+                        f.mode = md
+                        if md == "w":
+                            f.reset(); f.exists = True
+            elif op == "closef":
+                k = int(t[1])
+                if k in foreign:
+                    foreign.discard(k); e = "ok"
+                elif k in w.files:
+                    m = dict(user_open=w.files[k].mode is not None)
+                    e = "ok" if w.files[k].mode is not None else None
+                    w.files[k].mode = None
+            elif op in ("create", "link", "delete", "rename", "move", "label", "dims", "wall"):
+                f = w.files.get(int(t[1]))
+                if f is not None and f.mode is not None:
+                    m = dict(user_open=True)
+                if f is not None and ok(i):
+                    if op == "create":
+                        p, u = int(t[2]), int(t[3])
+                        f.nodes[u] = dict(parent=p, name=B(t[4]), label=b"", dt="MT", dims=[], data=None, link=None); f.order.append(u)
+                    elif op == "link":
+                        p, u = int(t[2]), int(t[3])
+                        f.nodes[u] = dict(parent=p, name=B(t[4]), label=b"", dt="LK", dims=[], data=None, link=(B(t[5]), B(t[6]))); f.order.append(u)
+                    elif op == "delete":
+                        for k in f.subtree(int(t[3])):
+                            del f.nodes[k]; f.order.remove(k)
+                    elif op == "rename":
+                        u = int(t[3]); f.nodes[u]["name"] = B(t[4]); renamed = True
+                        if be == "hdf5":
+                            f.order.remove(u); f.order.append(u)
+                    elif op == "move":
+                        u = int(t[3]); f.nodes[u]["parent"] = int(t[4]); f.order.remove(u); f.order.append(u)
+                    elif op == "label":
+                        f.nodes[int(t[2])]["label"] = B(t[3])
+                    elif op == "dims":
+                        f.nodes[int(t[2])].update(dt=t[3], dims=[int(x) for x in t[4].split(",")] if t[4] != "-" else [], data=None)
+                    elif op == "wall":
+                        f.nodes[int(t[2])]["data"] = B(t[3])
+            elif op in ("rd", "lnk", "sub"):
+                f = w.files.get(int(t[1])); u = int(t[2])
+                if f is not None and f.mode is not None and u in f.nodes:
+                    if op == "rd":
+                        e, tr, _ = ideal_rd(w, f.fid, u, B(t[3]))
+                        m = dict(kind="through", trace=tr, renamed=renamed, user_open=True)
+                    elif op == "lnk":
+                        n = f.nodes[u]
+                        e = "ok L:0" if n["link"] is None else "ok L:1:%s:%s" % (hx(n["link"][0]), hx(n["link"][1]))
+                        m = dict(kind="lnk", user_open=True)
+                    else:
+                        e = sub_line(f, u, be); m = dict(kind="dump", user_open=True)
+        except (KeyError, ValueError, IndexError):
+            e, m = None, None
+        expect.append(e); meta.append(m)
+    return expect, meta
+
+
+# ============================================================================ the check
+def jsonable(x):
+    if isinstance(x, (set, tuple, list)):
+        return [jsonable(y) for y in (sorted(x) if isinstance(x, set) else x)]
+    if isinstance(x, dict):
+        return {k: jsonable(v) for k, v in x.items()}
+    if isinstance(x, bytes):
+        return x.hex()
+    return x
+
+
+def unjson_expect(e):
+    return tuple(e) if isinstance(e, list) else e
+
+
+def unjson_meta(m):
+    if isinstance(m, dict) and isinstance(m.get("trace"), dict):
+        m = dict(m); t = dict(m["trace"]); t["file_rule"] = set(t.get("file_rule", [])); m["trace"] = t
+    return m
+
+
+def nontrivial(g, res):
+    """a history that really exercised the mechanism: a link into another file resolved, a link deleted or re-targeted,
+    a target renamed / moved / deleted, and files closed and opened again"""
+    ops = [l.split(" ")[0] for l in g.lines]
+    cross = any((m or {}).get("kind") == "through" and (m["trace"]["file_rule"]) for m in g.meta)
+    hashd = any((m or {}).get("kind", "").startswith("hash-after") for m in g.meta)
+    return cross and hashd and ("rename" in ops or "move" in ops) and ops.count("closef") >= 2
+
+
+class Runner:
+    def __init__(self, ck, exe, mexe):
+        self.ck, self.exe, self.mexe = ck, exe, mexe
+        self.root = os.path.join(ck.work, "w")
+        self.keys_seen = {}
+        self.div = []
+        self.unknown = []
+        self.dist = {"cgio_histories": {"adf": 0, "hdf5": 0}, "directed": 0, "mll_cases": 0, "script_lines": 0, "ops": {},
+                     "files": {}, "through_link_reads": 0, "ideal_ok": 0, "ideal_err": {}, "hops_max": 0,
+                     "file_rules": {}}
+
+    def account(self, g):
+        d = self.dist
+        d["script_lines"] += len(g.lines)
+        for l in g.lines:
+            o = l.split(" ")[0]; d["ops"][o] = d["ops"].get(o, 0) + 1
+        for e, m in zip(g.expect, g.meta):
+            if (m or {}).get("kind") == "through":
+                d["through_link_reads"] += 1
+                if isinstance(e, str):
+                    d["ideal_ok"] += 1
+                else:
+                    d["ideal_err"][e[1]] = d["ideal_err"].get(e[1], 0) + 1
+                d["hops_max"] = max(d["hops_max"], m["trace"]["hops"])
+                for r in m["trace"]["file_rule"]:
+                    d["file_rules"][r] = d["file_rules"].get(r, 0) + 1
+
+    def report(self, key, replay):
+        """one finding per key and run"""
+        if key in self.keys_seen:
+            self.keys_seen[key] += 1
+            return
+        self.keys_seen[key] = 1
+        self.ck.finding(key, replay)
+
+    def cgio_case(self, be, g, tag, shrink=True):
+        ck = self.ck
+        res = run_case(self.exe, be, g.lines, self.root)
+        ck.cov["traces_validated_against_impl"] += 1
+        self.account(g)
+        if res["outcome"].startswith("asan:") and "H5G_name_replace" in res["stack"]:
+            self.report(nodedb.LIBHDF5_KEY, {"backend": be, "outcome": res["outcome"], "stack": res["stack"], "case": tag})
+            return res
+        fails, div = judge(be, g.lines, g.expect, g.meta, res)
+        for i, desc, key in fails:
+            if key is not None:
+                self.report(key, dict(kind="cgio", backend=be, case=tag, script=g.lines[: i + 1] if len(g.lines) < 400 else g.lines[: i + 1][-400:],
+                                      script_full=g.lines if sum(map(len, g.lines)) < 300000 else None,
+                                      expect=jsonable(g.expect), meta=jsonable(g.meta), failure=desc, line=i))
+            else:
+                self.unknown.append((be, g, tag, i, desc))
+        if div and not [1 for _, _, k in fails if k is None]:
+            # the model and the implementation part ways where the oracle has nothing to say (or agrees with the library)
+            first_keyed = min([i for i, _, k in fails if k is not None] or [10 ** 9])
+            if div["line"] <= first_keyed or True:
+                self.div.append((be, g, tag, div))
+        return res
+
+    def unkeyed_failure(self, be, lines):
+        """does this script (any sub-history) fail an oracle in a way no known defect class explains?"""
+        res = run_case(self.exe, be, lines, self.root)
+        exp, meta = expect_from_script(be, lines, res["lines"])
+        fails, _ = judge(be, lines, exp, meta, res)
+        bad = [(i, d) for i, d, k in fails if k is None and d.get("note") != "operation refused"]
+        return bad[0] if bad else None
+
+    def shrink_unknown(self, be, g, i0):
+        lines = g.lines[: i0 + 1]
+        if self.unkeyed_failure(be, lines) is None:
+            return lines, None                                  # only the generator's before/after pairing sees it
+        small = vlib.ddmin(lines, lambda ls: self.unkeyed_failure(be, ls) is not None, max_tests=120)
+        return small, self.unkeyed_failure(be, small)
+
+
+def run(ck):
+    thorough = ck.tier == "thorough"
+    vlib.build_impl()
+    exe = vlib.build_harness("c08_cgio", ["c08_cgio.c"])
+    mexe = vlib.build_harness("c08_mll", ["c08_mll.c"])
+    res = vlib.coq_check_properties("C08")
+    broken = ck.proof_result(res, CHECKER)
+    vlib.build_modelrun("c08")
+    forb = vlib.coq_forbidden_scan("C08")
+    ck.extra["forbidden_tokens"] = forb
+    if forb:
+        ck.violation({"broken_obligation": "forbidden tokens", "hits": forb}, nofail=True)
+    ck.cov["trusted_base"] = [
+        "Coq 8.16.1 kernel + vm_compute", "extraction (ExtrOcamlBasic only), OCaml 4.13.1, ocaml/zutil.ml + eng_c08.ml (handle table, printing)",
+        "harness/c08_cgio.c, harness/c08_mll.c (script interpreters, uid -> id bookkeeping, per-operation alarm)",
+        "checks/C08.py: generator, its mirror of the trees and the ideal (fully transparent, cache-free) resolution used as oracle",
+        "TreeDB.v as the meaning of a file's tree; libhdf5 as installed (its external-link file search is modelled, not verified)"]
+    ck.assumptions = [
+        "one process, one thread; a file is never opened explicitly while links have opened it implicitly (two ADF handles on one file)",
+        "file names are literal strings: two spellings of one physical file are not used in one session; no '..' components",
+        "writes THROUGH link ids and children created under a link node are out of scope (ADF redirects them to the target, ADFH refuses)",
+        "HDF5 random histories do not store a link that names its own file by file name (libhdf5 keeps such a file open; reported by the mid-level tier as " + K_H5LEAK + ")",
+        "the link-cache hit counter of DESIGN.md 2.3 does not exist (no hook in /repo); cache behaviour is tied through observable answers only"]
+    ck.cov["rule"] = ("directed witnesses/boundaries (stale cache, path through own cycle, mutual file links, close order, chains of 5/100/101, cycles, "
+                      "paths through links, dangling, re-target, every rule of the search order with wrong-type decoys, '>' in a file name) + seeded "
+                      "histories over 1-3 files per back end (create / read through / rename / move / delete / re-create targets, delete / re-target "
+                      "links with a direct dump of the target before and after, fill of sub-node tables across growth steps, explicit closes, "
+                      "close-all + reopen of a subset so that files are reached only through links, search path reconfigured between sessions) "
+                      "on ADF and HDF5, each compared line by line with the extracted Links.v and judged by the ideal resolution + direct reads; "
+                      "mid-level tier: cg_link_write / cg_is_link / cg_link_read / coordinates, solutions and zones read through links vs the "
+                      "values written into the target, for every way of setting the search path. non-trivial = a cross-file link resolved, a link "
+                      "deleted or re-targeted with the before/after dump, a target renamed or moved, and at least two closes; distinct by SHA1")
+    R = Runner(ck, exe, mexe)
+    # ---- 1. directed scenarios
+    for name in SCENARIOS:
+        for be in ("adf", "hdf5"):
+            g = scenario(name, ck.rng, be, R.root)
+            R.cgio_case(be, g, "directed:" + name)
+            R.dist["directed"] += 1
+            ck.case("directed:%s:%s" % (name, be), sample={"scenario": name, "backend": be, "ops": [nodedb.short(x, 90) for x in g.lines[5:12]] + ["..."]})
+    # ---- 2. seeded histories
+    n = 600 if thorough else 55
+    for i in range(n):
+        for be in ("adf", "hdf5"):
+            nf = ck.rng.choice([1, 2, 2, 3, 3])
+            g = Gen(ck.rng, be, R.root, nf, nops=ck.rng.choice([25, 40, 60] if not thorough else [25, 40, 60, 120])).build()
+            res = R.cgio_case(be, g, "seeded:%d" % i)
+            R.dist["cgio_histories"][be] += 1
+            R.dist["files"][str(nf)] = R.dist["files"].get(str(nf), 0) + 1
+            ck.case(hashlib.sha1("\n".join(g.lines).encode()).hexdigest() if nontrivial(g, res) else None,
+                    sample={"backend": be, "files": nf, "ops": [nodedb.short(x, 90) for x in g.lines[8:16]] + ["..."]})
+        if len(R.unknown) >= 2:
+            break
+    # ---- 3. mid-level tier
+    for be in ("adf", "hdf5"):
+        for c in mll_cases(ck.rng, be, R.root):
+            fails, il, outcome = run_mll(mexe, c)
+            ck.cov["traces_validated_against_impl"] += 1
+            R.dist["mll_cases"] += 1
+            ck.case("mll:%s:%s" % (c.name, be))
+            for i, desc, key in fails:
+                rep = dict(kind="mll", backend=be, case=c.name, script=c.lines[: i + 1], expect=jsonable(c.expect), hint=jsonable(c.hint),
+                           failure=desc, line=i)
+                if key is not None:
+                    R.report(key, rep)
+                else:
+                    ck.violation(dict(rep, oracle="values written into the target / direct read of the target / clean status"))
+    # ---- verdicts for unkeyed oracle failures and for divergences
+    for be, g, tag, i, desc in R.unknown[:2]:
+        small, f2 = R.shrink_unknown(be, g, i)
+        rep = dict(kind="cgio", backend=be, case=tag, failure=desc, line=i)
+        if f2 is not None:
+            rep.update(script=small, failure_on_shrunk_script=f2[1], line=f2[0], expectations="recomputed from the script (expect_from_script)")
+        else:
+            rep.update(script=small[-300:], script_full=small if sum(map(len, small)) < 300000 else None,
+                       expect=jsonable(g.expect[: i + 1]), meta=jsonable(g.meta[: i + 1]))
+        ck.violation(rep)
+    if R.div and not ck.violations:
+        # a broken correspondence is not a verdict: look for a failing input of the property around it
+        found = False
+        for be, g, tag, div in R.div[:2]:
+            for k in range(30 if thorough else 12):
+                g2 = Gen(ck.rng, be, R.root, len(g.w.files) or 2, nops=40).build()
+                res = run_case(exe, be, g2.lines, R.root)
+                fails, _ = judge(be, g2.lines, g2.expect, g2.meta, res)
+                bad = [(i, d) for i, d, key in fails if key is None]
+                if bad:
+                    ck.violation(dict(kind="cgio", backend=be, case="widened search after divergence in " + tag, script=g2.lines[: bad[0][0] + 1][-300:],
+                                      expect=jsonable(g2.expect[: bad[0][0] + 1]), meta=jsonable(g2.meta[: bad[0][0] + 1]), failure=bad[0][1], line=bad[0][0]))
+                    found = True
+                    break
+            if found:
+                break
+        if not found:
+            be, g, tag, div = R.div[0]
+            ck.violation({"broken_correspondence": div, "backend": be, "case": tag, "script": g.lines[: div["line"] + 1][-200:],
+                          "note": "coq/Links.v and the library answer differently although every oracle (ideal resolution, direct reads, "
+                                  "before/after dumps) is satisfied on everything explored"}, nofail=True)
+    if broken and not ck.violations:
+        ck.violation({"broken_obligations": broken, "note": "a theorem of Properties_C08.v no longer checks; no history explored fails an oracle"}, nofail=True)
+    ck.extra["input_distribution"] = R.dist
+    ck.extra["finding_hits"] = R.keys_seen
+    ck.extra["model_impl_divergences"] = len(R.div)
+
+
+def replay(ck, path):
+    r = json.load(open(path))
+    vlib.build_impl()
+    root = os.path.join(ck.work, "w")
+    if r.get("kind") == "mll":
+        mexe = vlib.build_harness("c08_mll", ["c08_mll.c"])
+        c = MllCase(r["case"], r["backend"], root)
+        c.lines = r["script"]; c.expect = [unjson_expect(e) for e in r["expect"]][: len(c.lines)]; c.hint = r["hint"][: len(c.lines)]
+        # the scripts name absolute paths under the work directory of the original run; re-root them
+        fails, il, outcome = run_mll(mexe, c)
+        print("replay: %s" % (json.dumps([f[1] for f in fails][:2]) if fails else "holds"))
+        return 1 if fails else 0
+    script = r.get("script_full") or r.get("script")
+    if not script:
+        print("replay names a broken obligation / correspondence, no input to run"); return 1
+    exe = vlib.build_harness("c08_cgio", ["c08_cgio.c"]); vlib.build_modelrun("c08")
+    be = r["backend"]
+    res = run_case(exe, be, script, root)
+    n = len(script)
+    if "expect" in r and "meta" in r:
+        exp = [unjson_expect(e) for e in r["expect"]][:n]
+        meta = [unjson_meta(m) for m in r["meta"]][:n]
+        exp += [None] * (n - len(exp)); meta += [None] * (n - len(meta))
+    else:
+        exp, meta = expect_from_script(be, script, res["lines"])
+    fails, div = judge(be, script, exp, meta, res)
+    print("replay: outcome=%s failures=%s divergence=%s" % (res["outcome"], json.dumps([(i, d, k) for i, d, k in fails][:3]), json.dumps(div)))
+    return 1 if fails else 0
